@@ -14,3 +14,13 @@ const On = true
 // Reset restarts the runtime's random stream: an execution that starts with
 // Reset is a pure function of its choice list, also in a fresh process.
 func Reset() { runtime.VfxResetRand(0) }
+
+// SetDelay arms one scheduler deviation (delay-bounded scheduling): at the
+// at-th scheduling decision from now at which more than one goroutine of the
+// bubble is runnable, the goroutine whose turn it is goes to the back of the
+// run queue - once, or (starve) every time its turn comes while something else
+// is runnable. at=0 disarms. The decision count restarts.
+func SetDelay(at int, starve bool) { runtime.VfxSetDelay(uint32(at), starve) }
+
+// DelayCount returns the number of such decisions since SetDelay.
+func DelayCount() int { return int(runtime.VfxDelayCount()) }
